@@ -1,6 +1,6 @@
 (* ApiMul.v — correspondence entry points for C01.  Definitions only. *)
 From Coq Require Import ZArith List Bool.
-From Mpir Require Import Word Limbs MpnBasicDefs MpzDefs MpnMulDefs FftDefs ApiBasic Toom3Defs.
+From Mpir Require Import Word Limbs MpnBasicDefs MpzDefs MpnMulDefs FftDefs ApiBasic Toom3Defs Toom4Defs MulSliceDefs.
 From MpirGen Require Import Gen_Tables.
 Import ListNotations.
 Local Open Scope Z_scope.
@@ -79,3 +79,24 @@ Definition api_mpn_toom3_points : api := fun t =>
    TZ (toom3_eval2 a0 a1 a2); TZ (toom3_eval2 b0 b1 b2);
    TZ a0; TZ b0; TZ a2; TZ b2;
    TZ (toom3_mul Z.mul k a b)].
+
+(* mpn_toom4_points n A B : the operands of the seven recursive products of mpn_toom4_mul_n in call order and the product
+   computed by the Toom-4 model *)
+Definition api_mpn_toom4_points : api := fun t =>
+  let n := argz t 0 in let a := argz t 1 in let b := argz t 2 in
+  let k := (n + 3) / 4 in
+  let a0 := toom4_part0 k a in let a1 := toom4_part1 k a in let a2 := toom4_part2 k a in let a3 := toom4_part3 k a in
+  let b0 := toom4_part0 k b in let b1 := toom4_part1 k b in let b2 := toom4_part2 k b in let b3 := toom4_part3 k b in
+  let ae := a2 + a0 in let ao := a1 + a3 in let be := b2 + b0 in let bo := b1 + b3 in
+  let ahe := toom4_evalh_even a0 a2 in let aho := toom4_evalh_odd a1 a3 in
+  let bhe := toom4_evalh_even b0 b2 in let bho := toom4_evalh_odd b1 b3 in
+  [TZ 7; TZ (ae + ao); TZ (be + bo);
+   TZ (toom4_absdiff (toom4_cmp_sign ae ao) ae ao); TZ (toom4_absdiff (toom4_cmp_sign be bo) be bo);
+   TZ (ahe + aho); TZ (bhe + bho);
+   TZ (toom4_absdiff (toom4_cmp_sign ahe aho) ahe aho); TZ (toom4_absdiff (toom4_cmp_sign bhe bho) bhe bho);
+   TZ (toom4_eval2 a0 a1 a2 a3); TZ (toom4_eval2 b0 b1 b2 b3);
+   TZ a3; TZ b3; TZ a0; TZ b0;
+   TZ (toom4_mul Z.mul k a b)].
+(* mpn_mul un U vn V through the sliced schoolbook model when un exceeds the slice length M (MUL_BASECASE_MAX_UN = 500) *)
+Definition api_mpn_mul_sliced : api := fun t =>
+  [TZ (mul_sliced 500 (argz t 2) (argz t 1) (argz t 3) (argz t 0)); TZ (b2z (mul_sliced_overflows 500 (argz t 2) (argz t 1) (argz t 3) (argz t 0)))].
